@@ -11,7 +11,10 @@ CONFIG = dict(
                 "with two request histories with repeats (before and after a restart over the same databases) in which a step may "
                 "Close+Drop the database of the request just opened (NoDrop and droppable routes, databases shared by several "
                 "requests, re-open with the same producer and after the restart), a mutated table probed with Verify() right "
-                "after the restart and another one at the end; a second unit and "
+                "after the restart and another one at the end; at a drawn point of either history the caller may change, in place, the map "
+                "object it had passed to NewProducer (routes deleted, retargeted to another type/name/table, exact and pattern routes "
+                "added, everything but a default route removed; the producers map and the records key, which the producer shares with "
+                "its caller, are not touched); a second unit and "
                 "a 60 s native fuzz campaign draw arbitrary template/request strings."),
     level_note=NOTE_COMMON,
     rule=("Oracle: RouteOf equal across repeated calls, before/after opens and across 24 producers freshly built from the same "
@@ -25,12 +28,19 @@ CONFIG = dict(
           "restart every recorded request is re-opened, in an order independent of the first history); Verify() with the "
           "unchanged table passes; Verify() of a (mutated) table, right after the restart and at the end, fails exactly when "
           "some currently recorded request is routed to a different type, name or table, and when it passes every recorded "
-          "request is still reachable. Requests whose table is a non-empty prefix of a metadata key are skipped (precondition of "
+          "request is still reachable. A producer works on the configuration it was constructed with: after the caller changed the "
+          "map object it had passed to NewProducer, RouteOf of the running producer is unchanged for every request of the case and "
+          "the history continues against the model built from the original table (re-open reaches the same database and table, "
+          "conflicts refused as before, Verify() of the running first and restarted producer passes). Requests whose table is a non-empty prefix of a metadata key are skipped (precondition of "
           "the property). Non-trivial = two recorded requests share a database, or a request is matched by >= 2 pattern routes, "
-          "or a mutated table moves a recorded request; distinct by hash of (table, both histories, backends, mutated tables). "
+          "or a mutated table moves a recorded request, or the caller's changed map would route a request of the case differently; "
+          "distinct by hash of (table, both histories, backends, mutated tables, step log). "
           "Classes: history_with_drop (a database was really dropped), drop_then_reopen_same_producer, restart_after_drop, "
           "restart_after_drop_and_reopen, drop_after_restart, drop_removes_records_of_2plus_requests, "
-          "drop_on_nodrop_route_is_noop, overlap_with_dropped_record_accepted; restart_probe_* = Verify() outcome of the "
+          "drop_on_nodrop_route_is_noop, overlap_with_dropped_record_accepted, caller_map_changed_first_run / _after_restart "
+          "(the map handed to NewProducer was changed during that history), caller_map_change_would_move_a_request (a fresh "
+          "producer over the changed map routes a request of the case differently; _exact_only_table: the original table has no "
+          "pattern routes); restart_probe_* = Verify() outcome of the "
           "mutated table probed right after the restart."),
     assumptions=[
         "tables that are non-empty prefixes of the table-records key or of the flush-id key are excluded (property precondition)",
